@@ -39,7 +39,7 @@ protocol and evidence are as designed in section 2. Deviations, all in the direc
 
 ADDITIONS = """### 10.5 What the seeded rounds changed in the checks
 
-One hundred and forty changes from seven independent rounds (fresh sub-agents, property text only; each later round was told which *kinds* of change the earlier rounds had produced
+One hundred and sixty changes from eight independent rounds (fresh sub-agents, property text only; each later round was told which *kinds* of change the earlier rounds had produced
 and asked for different ones) were confirmed and run. Rounds 1-3 (60 changes): 45 were detected by the quick tier as it stood, two more only by the thorough tier, 13 not
 at all. Round 4 (20 changes; column "before" in `seeded/*-agent4/meta.json: detected_before_strengthening`, measured by running the previous commit of `/verif` against each
 changed tree): 11 detected by the quick tier as it stood, one more only by the thorough tier (C02), 8 not at all (C01, C03, C04, C06, C07, C09, C10, C18).
@@ -118,9 +118,26 @@ Every miss pointed at a *class* of input the generator did not produce, and the 
   its real defect) was reported as `table:unvetted-entry`; the audit now resolves every name a wrapper (or a module-level helper it calls, or an operator stand-in)
   mentions and judges what it *reaches* - constants, plain types, exceptions, math / operator, vetted functions and harmless builtins pass; getattr, __import__, open and
   the like do not (three new mutants).
+* **Round 8 (asked for: arithmetic translation slips, the edges of the quantified domain, unusual but legal call orders, copy semantics, derived values computed at the
+  wrong moment, error-path state, one-sided normalisation).** As it stood the quick tier detected 9 of 20 (C02, C03, C04, C05, C06, C08, C09, C17, C20), the thorough tier one
+  more (C10), ten were missed. Six of the ten were one idea: **a value derived at construction (or at first use) although the attribute it is derived from stays public and
+  assignable** - C07 `gate_logic` behind a cached_property, C13 `on_toxic` consulted when the digester table is built, C15 `deadlock_strategy` resolved in `__post_init__`,
+  C18 `max_retries` frozen into a cached schedule, C19 `stage.checkpoint` compiled into a stored gate, (C03 `allowed_capabilities`, caught by the peer engines of round 7).
+  No generator ever assigned an attribute after construction. Now: C07 `@logic` pseudo-requests (all ordered pairs of logics enumerated), C13 `late` callbacks, C15
+  `late_strategy`, C18 `init` limits (object built with other limits, the limits under test assigned before the first call or between two calls), C19 `late_gate`, C03 `policy`
+  steps. The unchanged code reads all of these live, so the configurations are legal and the checks stay quiet. The other misses: C01 - every size guard had been fed positive
+  literal operands only; bombs now also write the inspected operand negative, computed, as a bool and on the other side of the operator; C11 - integers stopped at 1000;
+  now up to 10**30 + 7, as numbers and as strings to be coerced, plus floats at the edges of the format; C14 - the operation re-registers the resources it holds
+  (`reregister` / `reregister-raise` work behaviours); C16 - the caller empties the set returned by `required_capabilities()` and asks again (an immutable answer is fine);
+  C10 (thorough only as it stood) - rules whose text contains compatibility characters must match their own literal instance, and the crowd between a block and its
+  relaxation can consist of distinct *blocked* inputs (which also turned the thin, seed-dependent detection of C10-agent6 into an enumerated one).
+  **Not detected, deliberately: C12-agent8** (includes expanded before blocks). Its two observable effects are ones the check leaves open on purpose: strict mode raising for
+  an unbound variable that sits in an untaken branch (the unchanged code does exactly that for a variable written directly in a dead arm - the "weakest reading" in the
+  check's assumptions), and a partial placed inside an each-body seeing the loop variables (the documentation's "same context as the parent" supports either reading, which is
+  why includes are not generated inside loop bodies). Pinning either down would make the check demand more than the statement says.
 * **One oracle bug found on the way** (no registered run was affected): C02 compared complex NaN results with `==`; now component-wise with NaN == NaN.
 
-After these changes 139 of the 140 seeded changes are detected by the quick tier and C14-agent6 by the thorough tier (table above; `python3 tools/run_mutants.py --seeded` re-runs them).
+After these changes 158 of the 160 seeded changes are detected by the quick tier, C14-agent6 by the thorough tier, and C12-agent8 by neither (see above) (table above; `python3 tools/run_mutants.py --seeded` re-runs them).
 """
 
 
@@ -183,7 +200,7 @@ def main():
             if "run_check" in line and "exit 1" in line and ";" in line:
                 sig = line.split(";", 1)[1].strip()[:110]
         out.append("| %s | %s | %s | %s | %s |" % (m["name"], m["property"], need.replace("|", "\\|"), "yes" if m.get("confirmed") else "NO",
-                                                    ("%s tier - `%s`" % (det, sig.replace("|", "/"))) if det else "**missed**"))
+                                                    ("%s tier - `%s`" % (det, sig.replace("|", "/"))) if det else ("not detected (left open by the statement, see 10.5)" if m.get("not_detected_by_design") else "**missed**")))
     out += ["", ADDITIONS, E]
     p = os.path.join(HERE, "DESIGN.md")
     s = open(p).read()
